@@ -53,9 +53,12 @@ static inline iora_slice iora_slice_from_range(iora_sit first, iora_sit last)
 
 /* ---------------- std::deque<ByteBuffer> ---------------- */
 typedef struct { size_t n; iora_slice front; size_t end; } iora_sdeque;
-/* well-formedness: n buffers, none empty, tiling [front.lo, end) */
-#define IORA_SDEQUE_WF(dq) ((dq).n == 0 || ((dq).front.lo < (dq).front.hi && (dq).front.hi <= (dq).end \
-                            && ((dq).n == 1 ? (dq).front.hi == (dq).end : (dq).front.hi < (dq).end)))
+/* well-formedness: n buffers, none empty, tiling [front.lo, end) (so there are at most end - front.lo of them) */
+#define IORA_SDEQUE_WF(dq) ((dq).n == 0 || ((dq).front.lo < (dq).front.hi && (dq).front.hi <= (dq).end && (dq).n <= (dq).end - (dq).front.lo \
+                            && ((dq).n == 1 ? (dq).front.hi == (dq).end : ((dq).front.hi < (dq).end && (dq).n - 1 <= (dq).end - (dq).front.hi))))
+#ifdef IORA_SEARCH
+size_t IORA_SQ_B[8]; unsigned IORA_SQ_i;      /* bounded SEARCH build: concrete inner boundaries, consumed in order by pop_front */
+#endif
 static inline bool iora_sdeque_empty(const iora_sdeque *q) { return q->n == 0; }
 static inline size_t iora_sdeque_size(const iora_sdeque *q) { return q->n; }
 static inline iora_slice *iora_sdeque_front(iora_sdeque *q) { IORA_ASSERT(q->n > 0, "deque::front() on a non-empty deque"); return &q->front; }
@@ -65,8 +68,12 @@ static inline void iora_sdeque_pop_front(iora_sdeque *q)
   q->n--;
   q->front.lo = q->front.hi;                 /* the next buffer starts where the popped one ended (contiguity) */
   if (q->n <= 1) q->front.hi = q->end;
-#ifndef IORA_NATIVE
-  else { size_t h = nondet_size_t(); IORA_ASSUME(h > q->front.lo && h < q->end); q->front.hi = h; }   /* some inner boundary */
+#ifdef IORA_SEARCH
+  else { IORA_ASSERT(IORA_SQ_i < 8, "search harness: boundary table large enough"); q->front.hi = IORA_SQ_B[IORA_SQ_i++]; }  /* the boundaries the harness chose */
+#elif !defined(IORA_NATIVE)
+  /* some inner boundary; ABSTRACTION INVARIANT re-established by assumption: the n-1 hidden buffers behind the new front are
+   * non-empty (every push site asserts it), so the new front ends early enough to leave each of them at least one position */
+  else { size_t h = nondet_size_t(); IORA_ASSUME(h > q->front.lo && h < q->end && q->n - 1 <= q->end - h); q->front.hi = h; }
 #endif
 }
 static inline void iora_sdeque_emplace_back(iora_sdeque *q, iora_slice s)
@@ -74,7 +81,7 @@ static inline void iora_sdeque_emplace_back(iora_sdeque *q, iora_slice s)
   IORA_ASSERT(s.lo < s.hi, "queued buffers are non-empty (TcpEngine::send drops n == 0 before it enqueues)");
   if (q->n == 0) { q->front = s; q->end = s.hi; q->n = 1; return; }
   IORA_ASSERT(s.lo == q->end, "SQ1 a buffer appended to the write queue continues the stream exactly where the queue ends (no gap, no duplicate)");
-  IORA_ASSERT(q->n < (size_t)-1, "deque growth");
+  IORA_ASSERT(q->n < SIZE_MAX, "deque growth");
   q->end = s.hi; q->n++;
 }
 static inline void iora_sdeque_emplace_front(iora_sdeque *q, iora_slice s)
@@ -82,7 +89,7 @@ static inline void iora_sdeque_emplace_front(iora_sdeque *q, iora_slice s)
   IORA_ASSERT(s.lo < s.hi, "queued buffers are non-empty");
   if (q->n == 0) { q->front = s; q->end = s.hi; q->n = 1; return; }
   IORA_ASSERT(s.hi == q->front.lo, "SQ2 a buffer put in front of the write queue ends exactly where the queue starts");
-  IORA_ASSERT(q->n < (size_t)-1, "deque growth");
+  IORA_ASSERT(q->n < SIZE_MAX, "deque growth");
   q->front = s; q->n++;        /* the old front becomes an inner boundary */
 }
 
